@@ -399,6 +399,9 @@ class Program:
 
     def body(self, redundant=None):
         """Text between the braces of lexer!{...} after the header line."""
+        if redundant is None and getattr(self, "paren_seed", None) is not None:
+            # written with redundant parentheses here and there (same text on every call)
+            redundant = random.Random(self.paren_seed)
         lines = []
         for n, re, scope in self.env:
             if scope == -1:
